@@ -114,10 +114,19 @@ qb_log_format_fini(void)
 	}
 }
 
+static void _log_target_format_static(int32_t target, const char * format,
+				      char *output_buffer, size_t output_len);
+
+/* every directive is either kept as it is or replaced by at most
+ * this many characters (no line can be longer, so neither can a field) */
+#define QB_LOG_STATIC_FIELD_MAX QB_LOG_ABSOLUTE_MAX_LEN
+
 void
 qb_log_format_set(int32_t target, const char *format)
 {
-	char modified_format[256];
+	char *modified_format;
+	size_t modified_len;
+	const char *c;
 	struct qb_log_target *t = qb_log_target_get(target);
 
 	pthread_rwlock_wrlock(&_formatlock);
@@ -125,8 +134,19 @@ qb_log_format_set(int32_t target, const char *format)
 	free(t->format);
 
 	if (format) {
-		qb_log_target_format_static(target, format, modified_format);
+		/* The stored format is not a line: it must not be cut
+		 * by the line length (that could leave half a directive
+		 * behind), and it can be longer than any fixed buffer. */
+		modified_len = strlen(format) + 1;
+		for (c = format; (c = strchr(c, '%')) != NULL; c++) {
+			modified_len += QB_LOG_STATIC_FIELD_MAX;
+		}
+		modified_format = malloc(modified_len);
+		assert(modified_format != NULL);
+		_log_target_format_static(target, format, modified_format,
+					  modified_len);
 		t->format = strdup(modified_format);
+		free(modified_format);
 	} else {
 		t->format = strdup("[%p] %b");
 	}
@@ -226,6 +246,16 @@ void
 qb_log_target_format_static(int32_t target, const char * format,
 			    char *output_buffer)
 {
+	struct qb_log_target *t = qb_log_target_get(target);
+
+	_log_target_format_static(target, format, output_buffer,
+				  t->max_line_length);
+}
+
+static void
+_log_target_format_static(int32_t target, const char * format,
+			  char *output_buffer, size_t output_len)
+{
 	char tmp_buf[255];
 	unsigned int format_buffer_idx = 0;
 	unsigned int output_buffer_idx = 0;
@@ -235,11 +265,12 @@ qb_log_target_format_static(int32_t target, const char * format,
 	int c;
 	struct qb_log_target *t = qb_log_target_get(target);
 
-	if (format == NULL) {
+	if (format == NULL || output_len == 0) {
 		return;
 	}
 
-	while ((c = format[format_buffer_idx])) {
+	while ((c = format[format_buffer_idx]) &&
+	       output_buffer_idx < output_len - 1) {
 		cutoff = 0;
 		ralign = QB_FALSE;
 		if (c != '%') {
@@ -283,20 +314,25 @@ qb_log_target_format_static(int32_t target, const char * format,
 				break;
 
 			default:
+				/* not for us: keep the directive as it is */
 				p = &format[percent_buffer_idx];
 				cutoff = (format_buffer_idx - percent_buffer_idx + 1);
 				ralign = QB_FALSE;
 				break;
 			}
+			if (p != &format[percent_buffer_idx] &&
+			    cutoff > QB_LOG_STATIC_FIELD_MAX) {
+				cutoff = QB_LOG_STATIC_FIELD_MAX;
+			}
 			len = _strcpy_cutoff(output_buffer + output_buffer_idx,
 					     p, cutoff, ralign,
-					     (t->max_line_length -
-					      output_buffer_idx));
+					     (output_len - output_buffer_idx));
 			output_buffer_idx += len;
+			if (format[format_buffer_idx] == '\0') {
+				/* the format ends inside a directive */
+				break;
+			}
 			format_buffer_idx += 1;
-		}
-		if (output_buffer_idx >= t->max_line_length - 1) {
-			break;
 		}
 	}
 
